@@ -35,7 +35,7 @@ ASSUMPTIONS = ['lemma blocks have the shape the slicer documents: `${ $d/$e ... 
 SEEDS = list(range(8))
 FLOORS = {'quick': {'databases': 300, 'databases_with_nested_blocks': 100, 'databases_with_dv': 100, 'databases_with_e': 100,
                     'roundtrips_checked': 2400, 'slices_verified': 1000, 'slices_with_hyps': 100, 'slices_with_dv': 30, 'slices_using_earlier_lemma': 60,
-                    'shipped_databases': 10, 'roundtrip_only_databases_checked': 200, 'shipped_slices_verified': 500, 'databases_with:clash_token_is_variable': 20, 'databases_with:clash_token_is_constant': 20, **{f'seed_runs:{s}': 300 for s in SEEDS}}}
+                    'shipped_databases': 10, 'roundtrip_only_databases_checked': 200, 'shipped_slices_verified': 500, 'databases_with:clash_token_is_variable': 20, 'databases_with:empty_label_list': 30, 'databases_with:very_long_lines': 10, 'databases_with:clash_token_is_constant': 20, **{f'seed_runs:{s}': 300 for s in SEEDS}}}
 FLOORS['thorough'] = dict(FLOORS['quick'], databases=4000, slices_verified=12000, roundtrips_checked=32000)
 
 REPO = Path(os.environ.get('PI2_REPO', '/repo'))
@@ -278,6 +278,34 @@ def shard(ctx):
     for t in range(ctx.scale(64, 640)):
         g = mmdb.late_dv_case(rng)
         cases.append({'text': g['text'], 'features': g['features'], 'kind': 'generated', 'name': f't{ctx.shard}.{t}'})
+    # a lemma proved from its own hypothesis alone (EMPTY label list), cited by a second lemma; and, once per shard, a database whose
+    # $c statement and one axiom are very long lines (hundreds of tokens)
+    for t in range(ctx.scale(48, 480)):
+        a, b_ = rng.sample(['ph0', 'ph1', 'ph2'], 2)
+        text = ('$c #Pattern |- ( ) \\imp $.\n$v ph0 ph1 ph2 $.\n' + ''.join(f'{v}-is-pattern $f #Pattern {v} $.\n' for v in rng.sample(['ph0', 'ph1', 'ph2'], 3)) +
+                'imp-is-pattern $a #Pattern ( \\imp ph0 ph1 ) $.\n' +
+                f'${{ idi.1 $e |- {a} $. idi $p |- {a} $= ( ) B $. $}}\n' +
+                f'${{ use.1 $e |- ( \\imp {b_} {b_} ) $. use $p |- ( \\imp {b_} {b_} ) $= ( imp-is-pattern idi ) AACBD $. $}}\n')
+        db_, err_ = mm.verify_text(text, strict=True)
+        if err_ is None and not any(v is not None for v in db_.results.values()):
+            cases.append({'text': text, 'features': ['empty_label_list'], 'kind': 'generated', 'name': f'e{ctx.shard}.{t}'})
+            ctx.count('databases_with:empty_label_list')
+    if True:
+        nconst = rng.randint(600, 900)
+        consts = [f'\\k{i}' for i in range(nconst)]
+        chain = consts[0]
+        for cst in consts[1:rng.randint(30, 60)]:
+            chain = f'( \\imp {cst} {chain} )'
+        text = ('$c #Pattern |- ( ) \\imp ' + ' '.join(consts) + ' $.\n$v ph0 ph1 $.\nph0-is-pattern $f #Pattern ph0 $.\nph1-is-pattern $f #Pattern ph1 $.\n'
+                'imp-is-pattern $a #Pattern ( \\imp ph0 ph1 ) $.\n' + f'big-axiom $a |- {chain} $.\n' +
+                'ax-id $a |- ( \\imp ph0 ph0 ) $.\nlem $p |- ( \\imp ph1 ph1 ) $= ( ax-id ) AB $.\n' +
+                f'lem2 $p |- {chain} $= ( big-axiom ) A $.\n')
+        db_, err_ = mm.verify_text(text, strict=True)
+        if err_ is None and not any(v is not None for v in db_.results.values()):
+            cases.append({'text': text, 'features': ['very_long_lines'], 'kind': 'generated', 'name': f'long{ctx.shard}'})
+            ctx.count('databases_with:very_long_lines')
+        else:
+            ctx.note('long_line_template_rejected', str(err_)[:200])
     # parseable but unusual texts (print / re-parse only; nothing here is a valid proof, so nothing is sliced or verified)
     for t in range(ctx.scale(96, 960)):
         nm = rng.sample(['ph0', 'ph1', 'x', 'th', 'A'], 3)
